@@ -144,7 +144,7 @@ def check(case, ctx):
                 ctx.fail(f'containers: tokens for {variant} differ from tokens for the string', expected=got, observed=got2)
                 return
         # ---- (4) two lexers alive at once (lazy token streams must not share scratch state)
-        if not triple and len(toks) >= 2:
+        if not triple and len(toks) >= 2 and len(s) <= 5:
             from penman import _lexer
             ita = iter(_lexer.lex(s))
             itb = iter(_lexer.lex(OTHER))
